@@ -13,7 +13,9 @@ n = table.count("\n| C")
 caught = table.count("| caught |")
 missed = table.count("| MISSED |")
 s = s[:a] + "### 8.1 Detection table\n\n" + f"{caught} of {n} changes are caught by the quick check of their own property; " \
-    f"{missed} is/are missed (marked MISSED), {n - caught - missed} neutralised by a later fix commit (marked so).\n\n" + \
+    f"{'none is' if missed == 0 else str(missed) + (' is' if missed == 1 else ' are')} missed (a miss would be marked MISSED), " \
+    f"{n - caught - missed} neutralised by a later fix commit (marked so).  Rows of earlier rounds show the result of the " \
+    f"evaluation at the end of their round or of a later re-run; rows of the last round the final state of the checks.\n\n" + \
     table + "\n" + s[b:]
 open(p, "w").write(s)
 print(n, caught)
